@@ -592,7 +592,7 @@ func init() {
 		}
 		key, _ := jsonStr(cs)
 		if cs.Grow > 0 {
-			c.Ev.Count(key, true, "iter:growing-map")
+			c.Ev.Count(key, true, map[bool]string{true: "iter:growing-map", false: "iter:shrinking-list"}[strings.Contains(key, `"hash"`)])
 			return judgeGrowing(cs, r.Items[0])
 		}
 		inner, np := unwrapPtr(cs.C)
@@ -712,6 +712,19 @@ func init() {
 				h = sb.V{K: "ptr", E: []sb.V{h}}
 			}
 			return &c16Iter{C: h, Grow: rapid.IntRange(1, n).Draw(t, "at")}
+		})
+		// lists behind a pointer that are cut to half their length while iterated
+		iter.Rapid(c, c.Share(c.Pick(1000, 60000)), func(t *rapid.T) *c16Iter {
+			n := rapid.IntRange(1, 9).Draw(t, "n")
+			l := sb.V{K: rapid.SampledFrom([]string{"arr", "slice:int", "slice:str"}).Draw(t, "kind")}
+			for i := 0; i < n; i++ {
+				if l.K == "slice:str" {
+					l.E = append(l.E, vstr(fmt.Sprintf("e%d", i)))
+				} else {
+					l.E = append(l.E, vnum(float64(i)))
+				}
+			}
+			return &c16Iter{C: sb.V{K: "ptr", E: []sb.V{l}}, Grow: rapid.IntRange(1, n).Draw(t, "at")}
 		})
 	}
 	Register(p)
